@@ -11,7 +11,7 @@ use neurons::tensor::Tensor;
 pub fn meta(ctx: &Ctx) -> Meta {
     let t = ctx.tier.thorough();
     Meta {
-        rule: format!("every layer sequence of <= {} tokens (one configuration deviation) over 5 input shapes that ends in a dense layer x EVERY subset of droppable layers (dense, convolution, deconvolution, layers inside feedback blocks) of size 1..{} carrying dropout (rates 0.5, 0.1, 0.9 depending on the subset) x epochs {{1,2,3}} x with/without validation data. Differential oracles, bit-exact: (i) the last validation pair returned by learn() equals validate() called right afterwards, and the e-th pair of a 3-epoch run equals the last pair of the e-epoch run; (ii) after learn(), predict equals predict of a twin network built WITHOUT dropout holding the same weights; (iii) validate()/predict() of a never-trained network equal the twin's; (iv) every training flag is off after learn() and after validate(); (v) the same after a run that left learn() through its early-stopping exit (tolerance 1); (vii) on every 16th case a validation set of 300 samples; (viii) every 4th configuration also on data the network already fits exactly (all-zero last layer, targets = its output: training loss exactly 0 in every epoch); (vi) the same along the call sequence validate, learn (with validation), learn (without), learn (with validation), validate. Non-trivial = a case in which the training-mode forward pass differs from the evaluation-mode one (the mask zeroed a non-zero element)", if t { 4 } else { 3 }, if t { "all" } else { "2" }),
+        rule: format!("every layer sequence of <= {} tokens (one configuration deviation) over 5 input shapes that ends in a dense layer x EVERY subset of droppable layers (dense, convolution, deconvolution, layers inside feedback blocks) of size 1..{} carrying dropout (rates 0.5, 0.1, 0.9 depending on the subset) x epochs {{1,2,3}} x with/without validation data. Differential oracles, bit-exact: (i) the last validation pair returned by learn() equals validate() called right afterwards, and the e-th pair of a 3-epoch run equals the last pair of the e-epoch run; (ii) after learn(), predict equals predict of a twin network built WITHOUT dropout holding the same weights; (iii) validate()/predict() of a never-trained network equal the twin's; (iv) every training flag is off after learn() and after validate(); (v) the same after a run that left learn() through its early-stopping exit (tolerance 1); (vii) on every 16th case a validation set of 300 samples; (ix) every 8th configuration also on inputs of +-3e38 (training aborts with the documented NaN-loss panic; a run that returns instead is held to the same oracles); (viii) every 4th configuration also on data the network already fits exactly (all-zero last layer, targets = its output: training loss exactly 0 in every epoch); (vi) the same along the call sequence validate, learn (with validation), learn (without), learn (with validation), validate. Non-trivial = a case in which the training-mode forward pass differs from the evaluation-mode one (the mask zeroed a non-zero element)", if t { 4 } else { 3 }, if t { "all" } else { "2" }),
         bound: format!("depth <= {}, dropout rates 0.1/0.5/0.9 (fixed-seed mask), 3 samples, batch 2", if t { 4 } else { 3 }),
         exhaustive: true,
         assumptions: vec!["Tensor::dropout uses a fixed seed, so training runs are deterministic and differential comparisons are bit-exact".into()],
@@ -89,7 +89,10 @@ pub fn check(seed: u64, case: &Kv, rep: &mut Report) {
     let n_in = net.input.count();
     let n_out = shapes.last().unwrap().out.count();
     let mut r = Rng::new(seed, fnv(&key) ^ 0x9999);
-    let mk = |r: &mut Rng, n: usize| -> Vec<f32> { (0..n).map(|_| r.signed(0.2, 1.0)).collect() };
+    // "diverge": inputs of +-3e38 - the forward pass overflows, the loss is NaN and learn() aborts (its documented
+    // "Loss is NaN" panic); should a library ever RETURN from such a run instead, it must still leave evaluation mode behind
+    let diverge = case.opt("data") == Some("diverge");
+    let mk = |r: &mut Rng, n: usize| -> Vec<f32> { (0..n).map(|_| r.signed(0.2, 1.0) * if diverge { 3.0e38 } else { 1.0 }).collect() };
     let xs: Vec<Tensor> = (0..3).map(|_| tensor(net.input, &mk(&mut r, n_in))).collect();
     let mut ts: Vec<Tensor> = (0..3).map(|_| Tensor::single(mk(&mut r, n_out))).collect();
     let vxs: Vec<Tensor> = (0..2).map(|_| tensor(net.input, &mk(&mut r, n_in))).collect();
@@ -377,6 +380,10 @@ pub fn cases(ctx: &Ctx) -> Vec<Kv> {
             // every 16th case also gets a validation set of 300 samples
             if (out.len() % 16) == 0 {
                 kv.set("bigval", 1);
+            }
+            // every 8th configuration also on data that makes training diverge at once
+            if (out.len() % 8) == 3 {
+                out.push(kv.clone().put("data", "diverge"));
             }
             // every 4th configuration also on data the network already fits exactly
             if (out.len() % 4) == 1 {
